@@ -20,8 +20,8 @@ pub struct C08 {
 
 const N_UNARY_CHUNKS: u64 = 64;
 const N_FLOAT_CASES: u64 = 64;
-const N_PIPE_QUICK: u64 = 1500;
-const N_PIPE_THOROUGH: u64 = 20000;
+const N_PIPE_QUICK: u64 = 12_000;
+const N_PIPE_THOROUGH: u64 = 200_000;
 
 fn boundary_set() -> Vec<i16> {
     let mut v: Vec<i32> = Vec::new();
@@ -420,6 +420,78 @@ impl C08 {
         }
     }
 
+    /// Integer literals in every spelling (decimal, &H, &octal) under unary minus, ABS and division by -1 written
+    /// directly in the expression, where a compiler may fold constants: the value the literal itself prints as is
+    /// taken from the interpreter, the operation on it must be exact or OVERFLOW.
+    fn literal_fold_case(&self, ctx: &mut Ctx, rng: &mut Rng) {
+        let u: u32 = match rng.usize(4) {
+            0 => *rng.pick(&[0x7FFFu32, 0x8000, 0x8001, 0xFFFF, 0x7FFE, 0, 1, 0x10000, 0xFFFE]),
+            1 => rng.below(0x10000) as u32,
+            _ => (*rng.pick(&self.bset) as i32).unsigned_abs(),
+        };
+        let lit = match rng.usize(4) {
+            0 => format!("&H{:X}", u),
+            1 => format!("&{:o}", u),
+            2 => format!("&h{:x}", u),
+            _ => format!("{}", u.min(32767)),
+        };
+        let first = format!("PRINT {}", lit);
+        let mut s = Session::new();
+        s.drain(8);
+        let mark = s.mark();
+        if s.command(&first, 64) != Stop::Stopped {
+            ctx.violation("no-stop", "pipeline:no-stop", &format!("{:?} did not return to the prompt", first), &first);
+            return;
+        }
+        let out = transcript(s.events_since(mark), Norm::STD);
+        let shown = out.strip_suffix(" \nREADY.\n<STOPPED>").map(|t| t.trim().to_string());
+        let v: i64 = match shown.and_then(|t| t.parse::<i64>().ok()) {
+            Some(v) if (-32768..=32767).contains(&v) => v,
+            _ => {
+                // the literal itself is refused (or is not an Integer): nothing to fold
+                ctx.count("literals_refused");
+                return;
+            }
+        };
+        let chk = |x: i64| -> Result<i64, ()> { if (-32768..=32767).contains(&x) { Ok(x) } else { Err(()) } };
+        let neg = |x: i64| chk(-x);
+        let (form, model): (&str, Result<i64, ()>) = match rng.usize(10) {
+            0 => ("-{}", neg(v)),
+            1 => ("- -{}", neg(v).and_then(neg)),
+            2 => ("-(-{})", neg(v).and_then(neg)),
+            3 => ("ABS({})", chk(v.abs())),
+            4 => ("ABS(-{})", neg(v).and_then(|x| chk(x.abs()))),
+            5 => ("0-{}", chk(-v)),
+            6 => ("-{}-1", neg(v).and_then(|x| chk(x - 1))),
+            7 => ("{}\\-1", chk(-v)),
+            8 => ("-{}\\1", neg(v)),
+            _ => ("-{}*1", neg(v)),
+        };
+        let text = format!("PRINT {}", form.replace("{}", &lit));
+        mon::journal(&text);
+        let mark = s.mark();
+        let stop = s.command(&text, 64);
+        let out = transcript(s.events_since(mark), Norm::STD);
+        ctx.eval(&text, true);
+        ctx.count("literal_fold_statements");
+        if stop != Stop::Stopped {
+            ctx.violation("no-stop", "pipeline:no-stop", &format!("{:?} did not return to the prompt: {:?}", text, stop), &text);
+            return;
+        }
+        let expect = match model {
+            Ok(n) => format!("{}{} \nREADY.\n<STOPPED>", if n < 0 { "-" } else { " " }, n.abs()),
+            Err(()) => "?OVERFLOW\nREADY.\n<STOPPED>".to_string(),
+        };
+        if out != expect {
+            ctx.violation(
+                "pipeline-mismatch",
+                "pipeline:literal-fold",
+                &format!("{:?} prints {}; {:?} printed {:?}, expected {:?}", first, v, text, out, expect),
+                &text,
+            );
+        }
+    }
+
     /// The same operators through the whole pipeline, so that the lexer/parser/codegen/VM are
     /// known to dispatch Integer operands to the checked routines.
     fn pipeline_case(&self, ctx: &mut Ctx, rng: &mut Rng) {
@@ -437,7 +509,10 @@ impl C08 {
             ("MOD", BinOp::Mod),
             ("^", BinOp::Pow),
         ];
-        let which = rng.usize(13);
+        let which = rng.usize(16);
+        if which >= 13 {
+            return self.literal_fold_case(ctx, rng);
+        }
         let (text, model): (String, mv::MR<V>) = if which == 9 {
             // FOR / NEXT on an Integer variable: the increment is Integer arithmetic like any other
             let a0 = *rng.pick(&[32760i32, 32766, 32767, -32768, -32767, -32760, 0, 30000, -30000, 1]);
